@@ -348,7 +348,8 @@ def dispatch(ix, R):
         for e in fl.of('call'):
             if e.name in WRITERS or e.name in ('create_group',):
                 pos = [g for g in e.guards if g.positive]
-                t = pos[0].text() if pos else ''
+                # the test in normal form (a condition hoisted into a temporary reads the same)
+                t = fl.tab.fmt(pos[0].rf) if pos and pos[0].rf is not None else ''
                 table.setdefault(e.name, []).append((t, [fmt(fl, a) for a in e.args]))
         why = []
 
@@ -357,9 +358,9 @@ def dispatch(ix, R):
         ki = [fmt(fl, pe['key']), fmt(fl, pe['item'])]
         if not has('write_scalar', 'float, int', ki):
             why.append('scalars')
-        if not has('write_array', 'np.ndarray', ki):
+        if not has('write_array', 'ndarray', ki):
             why.append('arrays')
-        if not has('write_string', '(str,)', ki):
+        if not has('write_string', 'tuple(str)', ki):
             why.append('strings')
         if not has('write_string_array', 'list, tuple'):
             why.append('string lists')
